@@ -359,10 +359,12 @@ impl<E: Endpoint> World<E> {
     fn new(o: &Shared, proto: &str, trace: String, r: &mut Rng) -> World<E> {
         let v7 = proto == "7";
         let mut rnd = |r: &mut Rng| -> Vec<[u8; 4]> {
-            (0..6).map(|i| match (i, r.below(6)) {
-                (0, 0) => [0xff; 4],
-                (0, 1) => [0; 4],
-                _ => [r.byte(), r.byte(), r.byte(), r.byte()],
+            // a run of 0..3 reserved values first (Token::random must draw again, every time)
+            let k = match r.below(12) { 0 | 1 => 1, 2 => 2, 3 => 3, _ => 0 };
+            (0..6).map(|i| if i < k { if r.chance(1, 2) { [0xff; 4] } else { [0; 4] } } else {
+                let mut t = [r.byte(), r.byte(), r.byte(), r.byte()];
+                if t == [0xff; 4] || t == [0; 4] { t[0] = 0x42; }
+                t
             }).collect()
         };
         let ra = rnd(r);
@@ -457,6 +459,15 @@ impl<E: Endpoint> World<E> {
             match E::dgram(d, sh) {
                 Some((t, nw)) => {
                     sent_txt.push(t.clone());
+                    // C03: a token handed out (0.6 ConnectAccept) or announced (0.7 token request / answer, Connect) is never a reserved value
+                    {
+                        let f: Vec<&str> = t.split('|').collect();
+                        let bad = if f[0] == "C" && f.len() >= 4 {
+                            if !self.v7 { f[3] == "ca" && (f[1] == "ffffffff" || f[1] == "00000000") }
+                            else { (f[3].starts_with("tk:") || f[3].starts_with("co:")) && &f[3][3..] == "ffffffff" }
+                        } else { false };
+                        o.check(!bad, "-", &self.trace, || format!("C03 step {}: {} {} sent {} which carries a reserved token value", self.steps, sn(side), opname, t));
+                    }
                     // C04: the library's own reader accepts it without a single warning
                     o.check(nw == 0, "-", &self.trace, || format!("C04 step {}: {} {} sent datagram {} which its own reader parses with {} warning(s): {}", self.steps, sn(side), opname, hex(d), nw, t));
                     if let Some(n) = t.strip_prefix("K|") {
